@@ -378,7 +378,7 @@ func c15R4(c *Ctx, rule string) {
 		lks := lookupsOf(f, a.activeUsers)
 		// the insert key is user.arrUID (copied from UID), the lookup key is arrUID copied from UID
 		okIns := false
-		if fv, _ := loadedField(mu.Key); fv != nil && fv.Name() == "arrUID" {
+		if fv, _ := loadedField(mu.Key); isField(fv, "internal/server", "ActiveUser", "arrUID") {
 			okIns = true
 		}
 		c.Check(len(lks) > 0 && okIns, rule, "activeUsers keyed by the UID copy in "+shortFn(f), c.at(mu), "lookup by arrUID, insert by user.arrUID (both copies of the UID parameter)", "active-user table is not keyed by the UID copy")
